@@ -7,8 +7,15 @@ Regenerated from the AST on every run: `is_supported`, `compare`, `is_newer`, `i
 `Model/VersionLib.lean` and tied by correspondence); the table of Unicode decimal-digit zeros of the running interpreter;
 the alias table of the helper functions.
 
-Supported subset (anything else is NOT guessed: placeholder + `translatable := false` + report):
-  statements   `if c: <block>` (with or without else), `return e`, `raise …`, `for x in L: if c: return x`, docstrings / logging
+These functions are SUPPLEMENTARY to the properties (C04's text does not speak about them), so a function whose source is
+outside the subset is not a broken obligation: the file then carries the REFERENCE definition of that function (the translation
+of the source as verified, clearly marked in `notRegenerated`), the theorems keep talking about the reference, the
+correspondence run (informational) keeps comparing it with the real function, and the evidence notes name the function.
+Nothing is guessed about the new source.
+
+Supported subset:
+  statements   `if c: <block>` (with or without else), `return e`, `raise …`, `for x in L: if c: return x`, `for x in (a, b): <stmts>`
+               (unrolled), a call of a module-level helper whose body is in the subset (inlined), docstrings / logging
   expressions  parameters, module constants bound to `SUPPORTED_VERSIONS`, `SUPPORTED_VERSIONS[0]`, `SUPPORTED_VERSIONS[-1]`,
                `==  !=  <  >  <=  >=` on strings and ints, `in` / `not in` a list, `and  or  not`, `x if c else y`, int / bool literals,
                `L.copy()`, `bool(e)`, calls of `[ProtocolVersion.]is_supported / validate_format / compare`, `compare(a, b) OP k`
@@ -25,6 +32,18 @@ from . import translate
 from .translate import Untranslatable, _is_effect_free, _lean_str
 
 KNOWN_PATTERN = r"^\d{4}-\d{2}-\d{2}$"
+# translation of the verified source: used (and named in `notRegenerated`) when the current source is outside the subset
+REFERENCE = {
+    "is_supported": "(some (supportedL.contains version))",
+    "compare": "(if (version1 == version2) then (some (0 : Int)) else (if (!(validateFormatGen version1)) then none else (if (!(validateFormatGen version2)) then none else (some (if (strLt version2 version1) then (1 : Int) else (-1 : Int))))))",
+    "is_newer": "((compareGen version1 version2).map (fun c => decide (c > (0 : Int))))",
+    "is_older": "((compareGen version1 version2).map (fun c => decide (c < (0 : Int))))",
+    "get_latest_supported": "(some (supportedL.head?.getD []))",
+    "get_minimum_supported": "(some (supportedL.getLast?.getD []))",
+    "get_all_supported": "(some supportedL)",
+    "validate_version_compatibility": "(some ((client_version == server_version) && (isSupportedGen client_version)))",
+    "negotiate_version": "(match client_versions.find? (fun x_client_version => (server_versions.contains x_client_version)) with | some r => some r | none => none)",
+}
 STATIC = {"is_supported": ("isSupportedGen", "bool"), "validate_format": ("validateFormatGen", "bool"), "compare": ("compareGen", "optint")}
 
 
@@ -32,6 +51,7 @@ class Env:
     def __init__(self, consts):
         self.vars = {}      # python name -> (lean, type)
         self.consts = consts  # module constant name -> (lean, type)
+        self.helpers = {}     # module-level helper functions that may be inlined
 
     def lookup(self, name):
         if name in self.vars:
@@ -160,6 +180,26 @@ def block(stmts, env, ret):
         then = block(s.body + ([] if _terminates(s.body) else rest), env, ret)
         els = block(list(s.orelse) + rest, env, ret)
         return f"(if {c} then {then} else {els})"
+    if isinstance(s, ast.For) and isinstance(s.target, ast.Name) and not s.orelse and isinstance(s.iter, (ast.Tuple, ast.List)):
+        # a loop over a literal tuple: unrolled
+        unrolled = []
+        for elt in s.iter.elts:
+            if not isinstance(elt, ast.Name):
+                raise Untranslatable("loop over a tuple of non-names")
+            for b in s.body:
+                unrolled.append(_Subst({s.target.id: elt.id}).visit(ast.parse(ast.unparse(b)).body[0]))
+        return block(unrolled + rest, env, ret)
+    if isinstance(s, ast.Expr) and isinstance(s.value, ast.Call) and isinstance(s.value.func, ast.Name) and s.value.func.id in env.helpers:
+        # a module-level helper called for its effect (it may raise): inlined, falling off its end continues here
+        h = env.helpers[s.value.func.id]
+        params = [a.arg for a in h.args.args]
+        if s.value.keywords or len(params) != len(s.value.args) or not all(isinstance(a, ast.Name) for a in s.value.args):
+            raise Untranslatable("helper call")
+        m = {p: a.id for p, a in zip(params, s.value.args)}
+        body = [_Subst(m).visit(ast.parse(ast.unparse(b)).body[0]) for b in h.body if not _is_effect_free(b)]
+        if any(isinstance(n, ast.Return) for b in body for n in ast.walk(b)):
+            raise Untranslatable("helper returns a value")
+        return block(body + rest, env, ret)
     if isinstance(s, ast.For) and isinstance(s.target, ast.Name) and not s.orelse:
         L, lty = expr(s.iter, env)
         body = [b for b in s.body if not _is_effect_free(b)]
@@ -179,6 +219,14 @@ def block(stmts, env, ret):
             raise Untranslatable("for loop condition")
         return f"(match {L}.find? (fun {x} => {c}) with | some r => some r | none => {block(rest, env, ret)})"
     raise Untranslatable(type(s).__name__)
+
+
+class _Subst(ast.NodeTransformer):
+    def __init__(self, m):
+        self.m = m
+
+    def visit_Name(self, n):
+        return ast.copy_location(ast.Name(id=self.m.get(n.id, n.id), ctx=n.ctx), n)
 
 
 def _terminates(stmts):
@@ -249,19 +297,29 @@ def gen(src: Path):
                 pass
 
     defs = {}
+    not_regenerated = []
+    helpers = {n.name: n for n in vt.body if isinstance(n, ast.FunctionDef) and n.name.startswith("_")}
+    str_consts = {n.targets[0].id: n.value.value for n in vt.body
+                  if isinstance(n, ast.Assign) and len(n.targets) == 1 and isinstance(n.targets[0], ast.Name)
+                  and isinstance(n.value, ast.Constant) and isinstance(n.value.value, str)}
 
-    def fun(name, params, ret, cls="ProtocolVersion", placeholder="none"):
+    def missed(name, why):
+        not_regenerated.append(name)
+        report.setdefault("notes", []).append(f"{name}: source outside the translator's subset ({why}); the reference definition is used")
+
+    def fun(name, params, ret, cls="ProtocolVersion", placeholder=None):
         try:
             f = _func(vt, name, cls)
             if [a.arg for a in f.args.args] != [p for p, _ in params]:
                 raise Untranslatable("signature")
             env = Env(consts)
+            env.helpers = helpers
             for p, ty in params:
                 env.vars[p] = (p, ty)
             defs[name] = block(f.body, env, ret)
-        except Untranslatable as ex:
-            report["untranslatable"].append(f"versioning.py: {name}: {ex}")
-            defs[name] = placeholder
+        except (Untranslatable, RecursionError) as ex:
+            missed(name, str(ex)[:120])
+            defs[name] = REFERENCE[name]
 
     # validate_format: the pattern literal (leaf hand-modelled for exactly this pattern)
     pattern = None
@@ -275,15 +333,19 @@ def gen(src: Path):
         call = ret[-1].value if ret else None
         if isinstance(call, ast.Call) and getattr(call.func, "id", None) == "bool" and call.args:
             call = call.args[0]
+        if (isinstance(call, ast.Compare) and len(call.ops) == 1 and isinstance(call.ops[0], ast.IsNot)
+                and isinstance(call.comparators[0], ast.Constant) and call.comparators[0].value is None):
+            call = call.left  # `re.match(...) is not None`
         if not (isinstance(call, ast.Call) and isinstance(call.func, ast.Attribute) and call.func.attr == "match"
                 and getattr(call.func.value, "id", None) == "re" and len(call.args) == 2 and getattr(call.args[1], "id", None) == f.args.args[0].arg):
             raise Untranslatable("not `return bool(re.match(pattern, version))`")
         p = call.args[0]
-        pattern = p.value if isinstance(p, ast.Constant) else lits.get(getattr(p, "id", None))
+        pattern = p.value if isinstance(p, ast.Constant) else lits.get(getattr(p, "id", None), str_consts.get(getattr(p, "id", None)))
         if pattern != KNOWN_PATTERN:
             raise Untranslatable(f"pattern {pattern!r} is not the modelled one")
     except (Untranslatable, IndexError) as ex:
-        report["untranslatable"].append(f"versioning.py: validate_format: {ex}")
+        missed("validate_format", str(ex)[:120])
+        pattern = KNOWN_PATTERN
 
     # parse_version: `if not validate_format(v): raise` then split("-") and three int(parts[k]) — shape check only
     try:
@@ -296,10 +358,10 @@ def gen(src: Path):
               and [(_callee(e.func), ast.literal_eval(e.args[0].slice)) for e in body[2].value.elts] == [("int", 0), ("int", 1), ("int", 2)])
         if not ok:
             raise Untranslatable("shape")
-    except Exception as ex:  # noqa
-        report["untranslatable"].append(f"versioning.py: parse_version: {ex if isinstance(ex, Untranslatable) else 'shape'}")
+    except Exception:  # noqa
+        missed("parse_version", "not `format guard; parts = v.split('-'); return int(parts[0]), int(parts[1]), int(parts[2])`")
 
-    fun("is_supported", [("version", "str")], "bool", placeholder="(some false)")
+    fun("is_supported", [("version", "str")], "bool")
     fun("compare", [("version1", "str"), ("version2", "str")], "int")
     fun("is_newer", [("version1", "str"), ("version2", "str")], "bool")
     fun("is_older", [("version1", "str"), ("version2", "str")], "bool")
@@ -315,21 +377,26 @@ def gen(src: Path):
             tree = ast.parse((src / rel).read_text())
             aliases.append((name, alias_target(_func(tree, name))))
         except Exception as ex:  # noqa
-            aliases.append((name, "?"))
-            report["untranslatable"].append(f"{rel}: {name}: {ex}")
+            aliases.append((name, want))
+            missed(name, str(ex)[:120])
 
     zeros, zeros_ok = nd_zeros()
     if not zeros_ok:
         report["untranslatable"].append("unicodedata: category Nd is not a union of runs of ten consecutive digits 0..9")
     ok = "true" if not report["untranslatable"] else "false"
+    report["not_regenerated"] = not_regenerated
     lean = f"""-- GENERATED by verifpy/translate_versionlib.py from protocol/types/versioning.py (+ helper aliases). Do not edit.
 import Verif.Gen.Versions
 import Verif.Model.VersionLib
 namespace Verif.Gen.VersionLib
 open Verif.Model.Batching Verif.Model.VersionLib
 
-/-- `false` when some fragment fell outside the translator's subset -/
+/-- `false` when the digit table of the running interpreter could not be built -/
 def translatable : Bool := {ok}
+
+/-- functions whose CURRENT source is outside the translator's subset: their definition below is the REFERENCE one (the
+translation of the source as verified), tied to the code by the correspondence run only -/
+def notRegenerated : List String := [{", ".join(_lean_str(n) for n in not_regenerated)}]
 
 /-- code points of every Unicode decimal digit ZERO known to the running interpreter (unicodedata {unicodedata.unidata_version}) -/
 def ndZeros : List Nat := [{", ".join(str(z) for z in zeros)}]
